@@ -695,6 +695,20 @@ static void op_plan(World &W, const Json &op) {
     // optional: the same index named twice (in both lists, or twice in one); the union is what counts
     // (only an index of R repeated in X, the usage the project's own test relies on; never duplicates inside one list)
     for (int v : op["dupX"].intvec()) { int x = ((v % n) + n) % n; if (std::count(R.begin(), R.end(), x) && !std::count(Xl.begin() + (long) X.size(), Xl.end(), x)) { Xl.push_back(x); W.fault("PLAN.overlapping-lists"); } }
+    // a caller that never de-duplicates: entries repeated until the list has the given length; the set named is unchanged
+    if (op.has("pad")) {
+        Rng pr((u64) op["pad"]["seed"].num(1));
+        size_t lr = (size_t) op["pad"]["R"].in(0), lx = (size_t) op["pad"]["X"].in(0);
+        bool front = op["pad"]["front"].in(0) != 0;   // repeats before the first occurrence of the last distinct index
+        auto pad = [&](std::vector<int> &l, size_t want) {
+            if (l.empty() || l.size() >= want) return;
+            std::vector<int> base = l; int last = base.back();
+            if (front && base.size() > 1) { l.pop_back(); while (l.size() + 1 < want) l.push_back(base[pr.below(base.size() - 1)]); l.push_back(last); }
+            else while (l.size() < want) l.insert(l.begin() + (long) pr.below(l.size() + 1), base[pr.below(base.size())]);
+        };
+        pad(Rl, lr); pad(Xl, lx);
+        W.fault("PLAN.repeated-entries");
+    }
     Rl.push_back(-1); Xl.push_back(-1);
     int *Rp = (int *) thread_arena().place((u8 *) Rl.data(), Rl.size() * 4, Arena::RIGHT);
     int *Xp = (int *) thread_arena().place((u8 *) Xl.data(), Xl.size() * 4, Arena::RIGHT);
